@@ -13,6 +13,10 @@ import (
 	"github.com/btcsuite/btcd/blockchain"
 	"github.com/btcsuite/btcd/chaincfg/v2"
 
+	"github.com/btcsuite/btcd/btcutil/v2"
+	"github.com/btcsuite/btcd/mempool"
+	"github.com/btcsuite/btcd/mining"
+
 	"verif/harness/simkit"
 )
 
@@ -34,6 +38,8 @@ var profilesFor = map[string][]string{
 	"C04": {"crash"},
 	"C09": {"retarget"},
 	"C14": {"votes"},
+	"C10": {"pool"},
+	"C12": {"pool"},
 	"C17": {"headers"},
 }
 
@@ -102,6 +108,10 @@ func run(r *simkit.Run) {
 
 	net := drawNet(r, prof)
 	net.GenesisTs = start - []int64{1800, 5 * 3600, 3 * 86400}[c.Intn(3, "genesis-age")]
+	if prof == "pool" {
+		// mostly a chain whose tip is recent ("current"), sometimes an old one
+		net.GenesisTs = start - []int64{1800, 1800, 5 * 3600, 1800, 5 * 3600, 3 * 86400}[c.Intn(6, "genesis-age-pool")]
+	}
 	if prof == "votes" {
 		drawVoteDeployments(r, net, net.GenesisTs)
 	}
@@ -110,6 +120,31 @@ func run(r *simkit.Run) {
 		UtxoCacheMax: []uint64{0, 2000, 200000, 100 << 20}[c.Intn(4, "utxo-cache")],
 		SigCache:     c.Bool(500, "sigcache"),
 		HashCache:    c.Bool(500, "hashcache"),
+	}
+	if prof == "pool" {
+		// the mempool and the template generator require both caches (as in server.go)
+		cfg.SigCache, cfg.HashCache = true, true
+		cfg.Pool = &mempool.Policy{
+			MaxTxVersion:         2,
+			DisableRelayPriority: c.Bool(600, "no-relay-priority"),
+			AcceptNonStd:         true,
+			FreeTxRelayLimit:     []float64{15.0, 0, 0.1}[c.Intn(3, "free-limit")],
+			MaxOrphanTxs:         []int{100, 2, 5}[c.Intn(3, "max-orphans")],
+			MaxOrphanTxSize:      []int{100000, 300}[c.Intn(2, "max-orphan-size")],
+			MaxSigOpCostPerTx:    blockchain.MaxBlockSigOpsCost / 4,
+			MinRelayTxFee:        btcutil.Amount([]int64{1000, 10, 5000}[c.Intn(3, "min-relay-fee")]),
+			RejectReplacement:    c.Bool(150, "reject-replacement"),
+		}
+		cfg.Mining = mining.Policy{
+			BlockMinWeight:    uint32([]int{0, 2000, 400000}[c.Intn(3, "min-weight")]),
+			BlockMaxWeight:    uint32([]int{4000000 - 4000, 3000000, 6000}[c.Intn(3, "max-weight")]),
+			BlockMinSize:      0,
+			BlockMaxSize:      uint32([]int{1000000 - 1000, 750000}[c.Intn(2, "max-size")]),
+			BlockPrioritySize: uint32([]int{0, 50000, 2000}[c.Intn(3, "prio-size")]),
+			TxMinFreeFee:      cfg.Pool.MinRelayTxFee,
+		}
+		r.Meta["min_relay_fee"] = fmt.Sprint(cfg.Pool.MinRelayTxFee)
+		r.Meta["max_orphans"] = fmt.Sprint(cfg.Pool.MaxOrphanTxs)
 	}
 	r.Meta["utxo_cache"] = fmt.Sprint(cfg.UtxoCacheMax)
 	r.Meta["maturity"] = fmt.Sprint(net.Maturity)
@@ -130,6 +165,9 @@ func run(r *simkit.Run) {
 	s := &Sim{r: r, w: w, n: n, prof: prof, delivered: map[*MBlock]bool{}, doubt: map[*MBlock]bool{}, manualInv: map[*MBlock]bool{}}
 	n.onTip = func(t *MBlock) { s.announced = append(s.announced, announce{s.commits(), t}) }
 	s.resetHeaders()
+	if n.Pool != nil {
+		s.ps = newPoolState()
+	}
 	s.CheckState("genesis")
 
 	// profile weights
@@ -156,6 +194,9 @@ func run(r *simkit.Run) {
 	case "votes":
 		pMut, pLimit, pOOO = 60, 120, 100
 		maxTx = 2
+	case "pool":
+		pMut, pLimit, pOOO = 60, 40, 100
+		maxTx = 3
 	}
 	steps := simkit.Range(c, 15, 70, "steps")
 	if prof == "headers" {
@@ -185,8 +226,83 @@ func run(r *simkit.Run) {
 		if prof == "votes" {
 			wVote, wHdr = 15, 5
 		}
-		ev := simkit.Pick(c, "event", 40, 40, 4, 4, 3, 3, 4, 2, wInv, wInv, wHdr, wQry, wAri, wVote)
+		wMine, wDeliver := 40, 40
+		wSub, wUns, wRem, wPM, wTm, wMin := 0, 0, 0, 0, 0, 0
+		if prof == "pool" {
+			wMine, wDeliver = 12, 14
+			wSub, wUns, wRem, wPM, wTm, wMin = 60, 10, 6, 8, 5, 4
+			if r.Property == "C12" {
+				wTm, wPM = 14, 4
+			}
+		}
+		ev := simkit.Pick(c, "event", wMine, wDeliver, 4, 4, 3, 3, 4, 2, wInv, wInv, wHdr, wQry, wAri, wVote, wSub, wUns, wRem, wPM, wTm, wMin)
 		switch ev {
+		case 14: // submit a new transaction
+			t := s.buildPoolTx(simkit.Pick(c, "ptx-kind", 50, 25, 15, 10))
+			if t == nil {
+				continue
+			}
+			s.Submit(t, simkit.Pick(c, "submit-api", 60, 10, 20, 10))
+			s.CheckPool("submit")
+		case 15: // submit a parent that was held back (resolves orphans), or re-submit anything
+			var t *MTx
+			if len(s.ps.unsent) > 0 && c.Bool(800, "send-unsent") {
+				i := c.Intn(len(s.ps.unsent), "which-unsent")
+				t = s.ps.unsent[i]
+				s.ps.unsent = append(s.ps.unsent[:i:i], s.ps.unsent[i+1:]...)
+			} else if len(w.AllTxOrder) > 0 {
+				t = w.AllTxOrder[c.Intn(len(w.AllTxOrder), "resubmit")]
+			}
+			if t == nil {
+				continue
+			}
+			s.Submit(t, simkit.Pick(c, "submit-api", 60, 10, 20, 10))
+			s.CheckPool("submit")
+		case 16: // removal entry points
+			if len(w.AllTxOrder) == 0 {
+				continue
+			}
+			t := w.AllTxOrder[c.Intn(len(w.AllTxOrder), "remove-which")]
+			btx := btcutil.NewTx(t.Msg)
+			op := simkit.Pick(c, "remove-op", 3, 3, 2, 1, 2)
+			switch op {
+			case 0:
+				n.Pool.RemoveTransaction(btx, true)
+			case 1:
+				n.Pool.RemoveDoubleSpends(btx)
+			case 2:
+				n.Pool.RemoveOrphan(btx)
+			case 3:
+				n.Pool.RemoveOrphansByTag(mempool.Tag(c.Intn(3, "tag")))
+			case 4:
+				if n.Pool.IsTransactionInPool(&t.Hash) {
+					n.Pool.ProcessOrphans(btx)
+				}
+			}
+			r.Event("pool-remove", "op=%d tx=%s", op, t.Hash.String()[:8])
+			r.Sig(fmt.Sprintf("rm%d", op))
+			s.CheckPool("remove")
+		case 17: // mine a block from the pooled set with the harness's own builder
+			blk, txs := s.CheckMinable()
+			if blk == nil {
+				continue
+			}
+			b := w.Build(s.n.Tip(), BlockOpts{Txs: txs, TsAbs: s.adjNow()})
+			r.Event("mine-from-pool", "%v with %d pooled txs", b, len(txs))
+			s.ps.minedFrom++
+			s.Deliver(b)
+			s.CheckState("connect")
+			if s.n.Tip() == b {
+				for _, t := range txs {
+					if n.Pool.IsTransactionInPool(&t.Hash) {
+						r.Violate("C10", "confirmed-leave-pool", "", "after connecting %v, its transaction %s is still pooled", b, t.Hash.String()[:8])
+					}
+				}
+			}
+		case 18:
+			s.CheckTemplate()
+		case 19:
+			s.CheckMinable()
 		case 13:
 			s.CheckVotes()
 		case 10: // deliver a header (usually parent first, sometimes any)
@@ -344,6 +460,11 @@ func run(r *simkit.Run) {
 			}
 			s.restarts++
 			s.resetHeaders()
+			if n.Pool != nil {
+				// the mempool is not persisted
+				s.ps = newPoolState()
+				s.reorgSincePoolEmpty = false
+			}
 			r.Event("restart", "clean=%v tip=%v", clean, n.Tip())
 			r.Sig(fmt.Sprintf("restart:%v", clean))
 			s.CheckState("restart")
